@@ -3,6 +3,7 @@ pipeline to the model driver (model_cases: only renames the queue records' threa
 independent python oracle that judges the logged run directly (completed, every contig segmented and in exactly one
 round, every worker through every barrier of every round, every worker exited)."""
 PROP = "C05"
+SUBCHECKS = ["C05L"]   # links Protocol.v to Queue.v (C06 contract) and Determinism.v (C04 rounds): props/C05L.v
 AREAS = []
 THEOREMS = ["inv_reachable", "no_lost_wakeup", "deadlock_free", "oversize_blocks_old_rule_refuted",
             "measure_decreases", "terminates", "run_reaches_final", "final_complete", "enabledb_sound", "stuckb_sound"]
